@@ -16,6 +16,7 @@ characterisations only need `1/2 < alpha` (not `alpha ≤ 1`, not bounds in `[0,
 import LnnVerif.Lemmas.Basic
 import Mathlib.Algebra.Order.Field.Rat
 import Mathlib.Tactic.NormNum
+import LnnVerif.Lemmas.FolMono
 
 set_option linter.unusedSectionVars false
 
@@ -318,5 +319,25 @@ example : state (3/4:ℚ) ⟨1/8, 7/8⟩ = St.U ∧ state (3/4:ℚ) ⟨7/8, 1⟩
   · rw [C17_state_aF ha]; norm_num
   · rw [C17_state_aT ha]; norm_num
   · rw [C17_state_aU ha]; norm_num
+
+/-! ### first-order tables: every reachable bound of every grounding lies in [0,1] -/
+
+section fol
+
+variable {ι : Type} [DecidableEq ι] {α : Type} [Field α] [LinearOrder α] [IsStrictOrderedRing α]
+
+/-- from a state with all bounds in [0,1] (e.g. validated data and world defaults), any sequence of
+first-order calls — any node kinds and parameters, grounding propagation included — ends with all
+bounds of all groundings in [0,1] -/
+theorem C17_fol_range (kb : FKB ι α) (hw : WorldsInUnit kb) (cs : List (FCall ι)) (p : PState ι α)
+    (hs : FState.InUnit p.st) : FState.InUnit (runPCalls kb cs p).1.st :=
+  (runPCalls_tightens kb hw cs p hs).2
+
+theorem C17_fol_range_infer (kb : FKB ι α) (hw : WorldsInUnit kb) (nodes : List ι) (up down : List (FCall ι))
+    (eps : α) (query : Option ι) (fuel : Nat) (p : PState ι α) (hs : FState.InUnit p.st) :
+    FState.InUnit (pInferQ kb nodes up down eps query fuel p).state.st :=
+  (pInferQ_tightens kb hw nodes up down eps query fuel p hs).2
+
+end fol
 
 end LNN
